@@ -1,4 +1,5 @@
 import PPLV.Solver.PendingProofsE2E
+import PPLV.Solver.Spec
 
 /-!
 # C06 stage 3 — `lp_fresh_correct`: the LP answers of the model on a problem never solved before
@@ -37,7 +38,8 @@ inductive FreshAnswer (s : LPState) : Bool → LPState → Prop
   | trivial (s1 : LPState) : (s1.status = .OPTIMIZED ∨ s1.status = .UNBOUNDED) → s1.tableau = [] →
       (∃ x, csSem s.input_cs x) → FreshAnswer s true s1
   | ready (s1 : LPState) : s1.status = .SATISFIABLE → Ready s.input_cs s.external_space_dim s1 →
-      s1.obj = s.obj → s1.maximize = s.maximize → FreshAnswer s true s1
+      s1.obj = s.obj → s1.maximize = s.maximize → s1.external_space_dim = s.external_space_dim →
+      FreshAnswer s true s1
 
 /-- **`is_lp_satisfiable()` on a problem never solved before answers correctly** -/
 theorem isLpSatisfiable_fresh_correct (fc : Chooser) (hfc : ChooserOK fc) (fuel : Nat) (s s1 : LPState) (r : Bool)
@@ -52,12 +54,12 @@ theorem isLpSatisfiable_fresh_correct (fc : Chooser) (hfc : ChooserOK fc) (fuel 
     simp only [Option.some.injEq, Prod.mk.injEq] at h
     obtain ⟨rfl, rfl⟩ := h
     have hF := firstCall_fresh s hU hn hl
-    rcases ppc_fresh fc hfc fuel (firstCall s) sR hF hlg hp with ⟨a1, a2⟩ | ⟨a1, a2, a3⟩ | ⟨a1, a2, a3, a4, -⟩
+    rcases ppc_fresh fc hfc fuel (firstCall s) sR hF hlg hp with ⟨a1, a2⟩ | ⟨a1, a2, a3⟩ | ⟨a1, a2, a3, a4, -, a6⟩
     · rw [a1]; exact FreshAnswer.unsat _ a2
     · have : (sR.status != .UNSATISFIABLE) = true := by rcases a1 with h | h <;> rw [h] <;> rfl
       rw [this]; exact FreshAnswer.trivial _ a1 a2 a3
     · have : (sR.status != .UNSATISFIABLE) = true := by rw [a1]; rfl
-      rw [this]; exact FreshAnswer.ready _ a1 a2 a3 a4
+      rw [this]; exact FreshAnswer.ready _ a1 ⟨a2.tb, a2.map, a2.sound, a2.complete⟩ a3 a4 a6
 
 /-- **`second_phase()` after the first `is_lp_satisfiable()`**: OPTIMIZED ⇒ a point of the solution set exists
     that no point of the solution set beats; UNBOUNDED ⇒ the solution set is non-empty and has points of
